@@ -31,8 +31,8 @@ package pointindex
 //@   requires intRootExtent[0] == ix.intExtent[0] && intRootExtent[1] == ix.intExtent[1]
 //@   let span = pixSpan(ix, level)
 //@   use pow2_split(ix.deepestLevel, level)
-//@   ensures[C03,C02] result0 == arr(ix.intExtent[0] + x*span, ix.intExtent[1] + y*span, ix.intExtent[0] + (x+1)*span, ix.intExtent[1] + (y+1)*span)
-//@   ensures[C03] result1 == arr(ix.intExtent[0] + x*span + hfloor(span), ix.intExtent[1] + y*span + hfloor(span))
+//@   ensures[C03,C02,C08] result0 == arr(ix.intExtent[0] + x*span, ix.intExtent[1] + y*span, ix.intExtent[0] + (x+1)*span, ix.intExtent[1] + (y+1)*span)
+//@   ensures[C03,C08] result1 == arr(ix.intExtent[0] + x*span + hfloor(span), ix.intExtent[1] + y*span + hfloor(span))
 
 //@ lemma pow2_split(d Int, l Int)
 //@   prelude arithdef
